@@ -306,8 +306,8 @@ func generate(rng *vh.Rng, hostile bool) Case {
 	wReqO := 8 + rng.Intn(25)
 	wRsp := 8 + rng.Intn(25)
 	wCtl := 0
-	if rng.Intn(2) == 0 {
-		wCtl = 2 + rng.Intn(6)
+	if rng.Intn(3) != 0 {
+		wCtl = 3 + rng.Intn(8)
 	}
 	for i := 0; i < n; i++ {
 		var e Event
@@ -591,6 +591,11 @@ func genDist(rng *vh.Rng, i int) DCase {
 		c.Bytes = pages*ps + ps - 1
 	default:
 		c.Bytes = pages*ps + uint64(rng.Intn(int(ps)))
+	}
+	if c.Bytes == 0 {
+		// byteSize 0 wraps to 2^52 pages and overflows the address arithmetic;
+		// outside the modelled range (recorded as a quirk in props/C18.v)
+		c.Bytes = 1
 	}
 	if rng.Intn(30) == 0 {
 		c.Addr += 1 + uint64(rng.Intn(int(ps)-1)) // misaligned: panic
